@@ -20,13 +20,104 @@ META = {
 }
 
 
+SETTERS = {"Quadrupole": ["k1", "tilt", "misalignment", "length"], "Dipole": ["angle", "k1", "tilt", "length"],
+           "RBend": ["angle", "k1", "length"], "Drift": ["length"], "Solenoid": ["k", "length", "misalignment"],
+           "HorizontalCorrector": ["angle", "length"], "VerticalCorrector": ["angle", "length"], "Undulator": ["length"],
+           "Cavity": ["voltage", "phase", "length"]}
+
+
+def resplit_case(rep, r: dict) -> None:
+    """the pieces are those of the element *as it is now*: split, change a parameter through the public attribute, split
+    again - tracking through the new pieces equals tracking through the (changed) whole, lengths add up"""
+    import numpy as np
+    import torch
+    import elements as E
+    import lattices as LT
+    from fals import C16 as F16
+    p, En, P = r["params"], r["energy"], np.array(r["particles"], dtype=float)
+    res = torch.tensor(r["resolution"], dtype=torch.float64)
+    el = E.build(p)
+    first = el.split(res)                                  # noqa: F841  (the first split is the point)
+    for attr, fac, add in r["changes"]:
+        old = getattr(el, attr)
+        setattr(el, attr, old * fac + add)
+    pieces = el.split(res)
+    cls = p["cls"]
+    what = ",".join(sorted(a for a, _, _ in r["changes"]))
+    tot = sum(float(q.length) for q in pieces)
+    if not abs(tot - float(el.length)) <= 1e-12 * max(1.0, abs(float(el.length))):
+        rep.fail("falsifier", f"C16|{cls}.split|after changing {what}|lengths-sum", f"{cls}: after {what} changed, the second split's lengths add up "
+                 f"to {tot!r}, the element is {float(el.length)!r} long", r)
+        return
+    for bt in ("ParticleBeam", "ParameterBeam"):
+        if bt == "ParameterBeam" and p.get("method") == "bmadx":
+            continue
+        b = LT.particle_beam(P, En) if bt == "ParticleBeam" else LT.parameter_beam_from(P, En)
+        ref = el.track(b)
+        got = F16.fold(pieces, b)
+        if cls in ("HorizontalCorrector", "VerticalCorrector"):
+            k = 1 if cls == "HorizontalCorrector" else 3
+            a_, b_ = (got.particles[..., k], ref.particles[..., k]) if bt == "ParticleBeam" else (got._mu[..., k], ref._mu[..., k])
+            d = None if bool(((a_ - b_).abs() <= 1e-9 * torch.clamp(b_.abs().max(), min=2e-5)).all()) else "total deflection differs"
+        else:
+            d = LT.beams_differ(got, ref, rtol=1e-8)
+        if d is not None:
+            rep.fail("falsifier", f"C16|{cls}.split|after changing {what}|track {bt}", f"{cls} split, then {what} changed, then split again: the pieces "
+                     f"do not track like the element ({bt}): {d}", r)
+            return
+
+
+def resplit_probe(ctx, n: int) -> None:
+    import elements as E
+    import lattices as LT
+    rep, rng = ctx.report, ctx.rng
+    kinds = list(SETTERS)
+    for i in range(n):
+        cls = kinds[i % len(kinds)]
+        p = E.gen_params(rng, cls)
+        if cls == "Cavity":
+            p["V"] = 0.0 if rng.random() < 0.5 else p["V"]
+        if p.get("L", 1.0) == 0.0:
+            p["L"] = 0.7
+        if cls in ("Quadrupole", "Dipole", "RBend", "Drift") and rng.random() < 0.25 and cls != "RBend":
+            p["method"] = "bmadx"
+            if cls == "Dipole":
+                p["k1"] = 0.0
+                if p["angle"] == 0.0:
+                    p["angle"] = 0.1
+            if cls == "Quadrupole" and p["k1"] == 0.0:
+                p["k1"] = 1.3
+        attrs = SETTERS[cls]
+        chosen = [attrs[int(j)] for j in rng.choice(len(attrs), size=int(rng.integers(1, min(2, len(attrs)) + 1)), replace=False)]
+        changes = []
+        for a in chosen:
+            if a == "length" and rng.random() < 0.7:
+                continue      # (a changed length alters the number of pieces: keep that for half of the cases only)
+            changes.append([a, float(E.pick(rng, 0.5, 2.0, -1.0, 1.5)) if a != "length" else float(E.pick(rng, 0.5, 1.5)),
+                            float(E.pick(rng, 0.0, 0.0, 1e-3)) if a != "length" else 0.0])
+        if not changes:
+            changes = [[attrs[0], 1.5, 1e-3 if attrs[0] != "length" else 0.0]]
+        r = {"kind": "resplit", "params": p, "energy": float(E.energy(rng)), "particles": LT.gen_particles(rng, 6).tolist(),
+             "resolution": float(p["L"] / float(E.pick(rng, 1.5, 2.5, 3.7, 0.8))), "changes": changes}
+        rep.fals_cases += 1
+        rep.count(f"probe:resplit:{cls}")
+        rep.case(("resplit", cls, tuple(sorted(a for a, _, _ in changes))), None)
+        try:
+            resplit_case(rep, r)
+        except Exception as ex:  # noqa: BLE001
+            rep.count(f"resplit:rejected:{type(ex).__name__}")
+
+
 def run(ctx) -> None:
+    resplit_probe(ctx, ctx.n(108, 1800))
     run_split_correspondence(ctx, "C16", ctx.n(80, 2000))
     if F is not None:
         F.run(ctx)
 
 
 def corpus_case(ctx, r: dict) -> None:
+    if r.get("kind") == "resplit":
+        return resplit_case(ctx.report, r)
     if F is not None and hasattr(F, "corpus_case"):
         F.corpus_case(ctx, r)
 
